@@ -18,7 +18,7 @@ func init() {
 		Explanation: "Decides: R1 every loop of the hand-written scanners (pgo/augment finder, parse metaParser, parse/section programSplitter) (ii) leaves before returning to its header under the sticky end-of-input assumption (tok==EOF / eof==true / offset==len(content); branch atoms evaluated three-valuedly, undecided atoms explored both ways) and (iii) passes an instruction that must advance the scanner on every cycle (must-advance summaries by fixed point, deferred next() included); every other loop of the module outside the algorithmic packages internal/diff and internal/astdiff is an index/range loop, a monotone-counter loop or a listed exception; " +
 			"R2 every reflect.Value.Set is dominated by the true edge of an AssignableTo test on the same (source, destination) pair, or is one of the audited type-safe-by-construction sites (table with the invariant); the replacers that place values produced by nested replacers or recorded runs go through the guarded helper; " +
 			"R3 every explicit panic and every single-result type assertion in the module is in the audited inventory (one line of invariant each); a new one, or a listed one whose function changed, is reported; " +
-			"R4 every data.Lookup(d, K, *T) has a data.WithValue(d, K, T) with the same static key type and value type (a mismatch panics inside data.Lookup); R5 errors of mainCmd.Run reach exit status 1, patch.Parse / File.Apply return errors of parse/compile rather than panic; R6 no uncomparable scalar is reachable in the go/ast schema (ValueMatcher's == would panic). " +
+			"R4 every data.Lookup(d, K, *T) has a data.WithValue(d, K, T) with the same static key type and value type (a mismatch panics inside data.Lookup); R5 errors of mainCmd.Run reach exit status 1, patch.Parse / File.Apply return errors of parse/compile rather than panic; R6 no uncomparable scalar is reachable in the go/ast schema (ValueMatcher's == would panic); R7 every recursive search (a function that calls itself from inside a candidate loop) consults a failure memo before searching and records the failure after the loop, so the search is not exponential in the number of '...'; R8 a pointer obtained by type-asserting reflect.Value.Interface() (optional go/ast fields are typed nil pointers inside the interface) is dereferenced only behind a nil test, listed exceptions aside. " +
 			"NOT decided: general nil-dereference and index-out-of-range safety, recursion depth, memory use, and the internals of go/scanner, go/parser, go/printer, reflect.",
 		Trusted:     append([]string{"go/scanner.Scanner.Scan keeps returning token.EOF once the input is exhausted", "bufio.Scanner.Scan terminates"}, commonTrusted...),
 		Assumptions: commonAssumptions,
@@ -36,6 +36,8 @@ func runC08(r *an.Run) {
 	c08APIReturnsErrors(r)
 	r.Rule("R6-schema-comparable")
 	schemaComparable(r)
+	c08BacktrackingMemoised(r)
+	c08TypedNil(r)
 }
 
 func tokenEOF(r *an.Run) int64 {
@@ -604,4 +606,159 @@ func schemaComparable(r *an.Run) {
 	if bad == 0 {
 		r.Pass("go/ast|leaves-comparable", token.NoPos, "all %d types reachable from the pattern roots are structural or comparable scalars", len(reached))
 	}
+}
+
+// ---- R7 -------------------------------------------------------------------
+
+// c08BacktrackingMemoised: a function that calls itself from inside a loop is a
+// backtracking search; without a memo of failed sub-problems its running time
+// is exponential in the recursion depth (number of elisions).
+func c08BacktrackingMemoised(r *an.Run) {
+	r.Rule("R7-backtracking-is-memoised")
+	n := 0
+	for _, f := range r.P.ModuleFuncs() {
+		rel := strings.TrimPrefix(strings.TrimPrefix(an.FuncPkgPath(f), an.Module), "/")
+		if strings.HasPrefix(rel, "tools") || rel == "internal/diff" || rel == "internal/astdiff" {
+			continue
+		}
+		for _, c := range an.Calls(f) {
+			if an.StaticCallee(c) != f {
+				continue
+			}
+			l := an.LoopOf(f, c.Block())
+			if l == nil {
+				continue // plain structural recursion
+			}
+			if _, isVerdict := an.VerdictIndex(f.Signature); !isVerdict {
+				continue // a tree walk over children, not a retry-on-failure search
+			}
+			n++
+			key := short(f) + "|self-call-in-loop"
+			// a map parameter that is looked up before the loop and updated after it
+			var memo *ssa.Parameter
+			for _, p := range f.Params {
+				if _, ok := p.Type().Underlying().(*types.Map); ok {
+					memo = p
+				}
+			}
+			if memo == nil {
+				r.Fail(key, c.Pos(), "%s calls itself from inside a candidate loop without a memo of failed sub-problems: the search is exponential in the recursion depth (number of '...')", short(f))
+				continue
+			}
+			consulted, recorded := false, false
+			for _, b := range f.Blocks {
+				for _, in := range b.Instrs {
+					switch x := in.(type) {
+					case *ssa.Lookup:
+						if x.X == ssa.Value(memo) && b.Dominates(l.Header) {
+							// the lookup must decide an early failing return
+							for _, br := range an.BranchesOn(f, x) {
+								if an.ReturnsFailure(br.If.Block().Succs[br.EdgeWhen(true)]) {
+									consulted = true
+								}
+							}
+						}
+					case *ssa.MapUpdate:
+						if x.Map == ssa.Value(memo) && !l.Blocks[b] && an.ReturnsFailure(b) {
+							recorded = true
+						}
+					}
+				}
+			}
+			r.Check(consulted, key+"|memo-consulted", c.Pos(), "%s returns failure at once for a sub-problem already known to fail (memo looked up before the candidate loop)", short(f))
+			r.Check(recorded, key+"|memo-recorded", c.Pos(), "%s records the sub-problem as failed when the candidate loop is exhausted", short(f))
+			// the recursive call receives the memo (or a fresh one), never nil
+			last := c.Common().Args[len(c.Common().Args)-1]
+			r.Check(!an.IsNilConst(last), key+"|memo-passed", c.Pos(), "the recursive call is given a memo")
+		}
+	}
+	r.Count("recursive searches", n)
+	r.Min("recursive searches", 1)
+}
+
+// ---- R8 -------------------------------------------------------------------
+
+// typedNilExceptions: functions that dereference such a pointer without a nil
+// test, with the invariant that makes the pointer non-nil.
+var typedNilExceptions = map[string]string{
+	"(*internal/engine.matcherCompiler).compileForStmt":  "pattern values of type *ast.ForStmt are only reached through the ast.Stmt interface, whose nil case is compiled by compileInterface before",
+	"(*internal/engine.replacerCompiler).compileForStmt": "replacerCompiler.compile returns a ZeroReplacer for nil pointers before dispatching",
+	"(*internal/engine.replacerCompiler).compileIdent":   "replacerCompiler.compile returns a ZeroReplacer for nil pointers before dispatching",
+	"(internal/engine.ImportReplacer).Replace":           "the name replacer is compiled from a non-nil *ast.Ident (imp.Name != nil is tested at compile time) and reproduces a non-nil identifier",
+}
+
+// c08TypedNil: optional fields of go/ast nodes are nil pointers; seen through
+// reflect.Value.Interface() they become non-nil interfaces holding a typed nil
+// pointer, so a successful (comma-ok) type assertion does not make them safe
+// to dereference.
+func c08TypedNil(r *an.Run) {
+	r.Rule("R8-typed-nil-out-of-reflection")
+	n := 0
+	for _, f := range r.P.ModuleFuncs() {
+		rel := strings.TrimPrefix(strings.TrimPrefix(an.FuncPkgPath(f), an.Module), "/")
+		if strings.HasPrefix(rel, "tools") || rel == "internal/astdiff" || rel == "internal/diff" {
+			continue
+		}
+		for _, b := range f.Blocks {
+			for _, in := range b.Instrs {
+				ta, ok := in.(*ssa.TypeAssert)
+				if !ok {
+					continue
+				}
+				if _, isPtr := ta.AssertedType.Underlying().(*types.Pointer); !isPtr {
+					continue
+				}
+				if c, isCall := ta.X.(*ssa.Call); !isCall || !an.IsCallTo(c, rvInterface) {
+					continue
+				}
+				var ptr ssa.Value = ta
+				if ta.CommaOk {
+					ex := an.ExtractOf(ta, 0)
+					if len(ex) == 0 {
+						continue
+					}
+					ptr = ex[0]
+				}
+				n++
+				// non-nil edges
+				var nonNil []an.CtrlEdge
+				for _, cse := range an.EqCases(f, func(v ssa.Value) bool { return v == ptr }) {
+					if an.IsNilConst(cse.Key) {
+						nonNil = append(nonNil, edgeTo(cse.If.Block(), cse.Else))
+					}
+				}
+				key := short(f) + "|" + an.ShortType(ta.AssertedType)
+				bad := false
+				if refs := ptr.Referrers(); refs != nil {
+					for _, u := range *refs {
+						switch u.(type) {
+						case *ssa.FieldAddr, *ssa.Field:
+						default:
+							continue
+						}
+						guarded := false
+						for _, e := range nonNil {
+							if unreachableWithout(u.Block(), []an.CtrlEdge{e}) {
+								guarded = true
+							}
+						}
+						if guarded {
+							continue
+						}
+						if why, ok := typedNilExceptions[short(f)]; ok {
+							r.Pass(key+"|exception", u.Pos(), "listed exception: %s", why)
+							continue
+						}
+						bad = true
+						r.Fail(key, u.Pos(), "%s dereferences a %s obtained from reflect.Value.Interface() without a nil test: an absent optional AST field (a typed nil pointer) passes the type assertion and panics here", short(f), an.ShortType(ta.AssertedType))
+					}
+				}
+				if !bad {
+					r.Pass(key, ta.Pos(), "pointer out of reflect.Value.Interface() is dereferenced only behind a nil test (or not at all)")
+				}
+			}
+		}
+	}
+	r.Count("pointer assertions on reflected values", n)
+	r.Min("pointer assertions on reflected values", 4)
 }
